@@ -780,6 +780,19 @@ func ruleC07Complement(c *Ctx) {
 			for _, lv := range s.Levels {
 				as = append(as, atomsOf(lv)...)
 			}
+			// the site runs in the body of a range over a package iterator (for i := range anns.unevaluatedIndexes(...)):
+			// what guards the iterator's yield guards the body
+			var yields []*ssa.Call
+			for _, lv := range s.Levels {
+				for f := lv.Parent(); f != nil; f = f.Parent() {
+					if isRangeFuncBody(f) {
+						yields = append(yields, c.yieldCallsOf(f)...)
+					}
+				}
+			}
+			for _, y := range yields {
+				as = append(as, atomsOf(y)...)
+			}
 			pos := c.pos(s.siteInstr())
 			c.R.Check(has(as, flag, "flag", false), rule, src+":not-all-evaluated", pos, "applied only when the merged record does not say all were evaluated (!"+flag+")",
 				"the application of "+src+" is not guarded by the negation of annotations."+flag)
@@ -791,7 +804,21 @@ func ruleC07Complement(c *Ctx) {
 				if call, ok := s.Inst.(*ssa.Call); ok && core.CalleeKey(&call.Call) == "reflect.Value.Index" && len(call.Call.Args) == 2 {
 					// every initial value of the index is the merged endIndex (the increment of the loop variable aside)
 					nEnd, nOther := 0, 0
-					for _, e := range traceSources(call.Call.Args[1]) {
+					idxSrcs := traceSources(call.Call.Args[1])
+					// the index handed over by a package iterator: what the iterator yields
+					if len(idxSrcs) == 1 {
+						if p, isP := idxSrcs[0].(*ssa.Parameter); isP && isRangeFuncBody(p.Parent()) {
+							idxSrcs = nil
+							for _, y := range c.yieldCallsOf(p.Parent()) {
+								for k, bp := range p.Parent().Params {
+									if bp == p && k < len(y.Call.Args) {
+										idxSrcs = append(idxSrcs, traceSources(y.Call.Args[k])...)
+									}
+								}
+							}
+						}
+					}
+					for _, e := range idxSrcs {
 						if ld, ok := e.(*ssa.UnOp); ok {
 							if fa, ok := ld.X.(*ssa.FieldAddr); ok && m.isFrameAnns(fa) && core.CanonFieldOf(fa.X.Type(), fa.Field) == "endIndex" {
 								nEnd++
@@ -1391,4 +1418,36 @@ func isMembershipFn(fn *ssa.Function) bool {
 		ok = false
 	})
 	return ok && n == 1
+}
+
+// yieldCallsOf: body is the body of a range-over-func loop; when the iterator comes from a package function
+// (a constructor returning a func(yield) closure), the calls of yield in that closure.
+func (c *Ctx) yieldCallsOf(body *ssa.Function) []*ssa.Call {
+	at := rangeFuncCall(body)
+	if at == nil {
+		return nil
+	}
+	call, ok := at.(ssa.CallInstruction)
+	if !ok {
+		return nil
+	}
+	var out []*ssa.Call
+	for _, src := range append(traceSourcesDeep(call.Common().Value), call.Common().Value) {
+		mc, ok := src.(*ssa.MakeClosure)
+		if !ok {
+			continue
+		}
+		g := mc.Fn.(*ssa.Function)
+		if !c.P.InPkg(g) || len(g.Params) == 0 {
+			continue
+		}
+		for _, f := range core.WithAnon(g) {
+			core.EachInstr(f, func(i ssa.Instruction) {
+				if yc, ok := i.(*ssa.Call); ok && !yc.Call.IsInvoke() && yc.Call.Value == ssa.Value(g.Params[0]) {
+					out = append(out, yc)
+				}
+			})
+		}
+	}
+	return out
 }
